@@ -1258,6 +1258,20 @@ func intervalOf(facts []Fact, t *Term) (lo, hi *int64, has bool) {
 			}
 		}
 	}
+	// library axioms: len(x) >= 0; strings.Split(s, sep) with a non-empty constant
+	// separator has at least one element
+	if t.Op == "call" && t.Name == "len" && len(t.Args) == 1 {
+		min := int64(0)
+		if sp := t.Args[0]; sp.IsCall("strings.Split") && len(sp.Args) == 2 {
+			if sep, ok := sp.Args[1].StrConst(); ok && sep != "" {
+				min = 1
+			}
+		}
+		if lo == nil || *lo < min {
+			lo = &min
+			has = true
+		}
+	}
 	return
 }
 
